@@ -150,7 +150,7 @@ BNext == \/ \E p \in Procs : \E o \in OpSet : BStart(p, o)
               \/ BOpenBucketW(p) \/ BAppendRecord(p)
               \/ (OpenBucketR(p) /\ NewUnch) \/ (ReadBucket(p) /\ NewUnch) \/ (OpenContent(p) /\ NewUnch)
               \/ (ReadContent(p) /\ NewUnch) \/ (UnlinkContent(p) /\ NewUnch) \/ (StatContent(p) /\ NewUnch)
-              \/ (WalkVisit(p) /\ NewUnch)
+              \/ (WalkVisit(p) /\ NewUnch) \/ (SymlinkContent(p) /\ NewUnch)
               \/ RfLookup(p) \/ RfUnlinkContent(p) \/ RfUnlinkBucket(p)
               \/ ClearScan(p) \/ ClearStep(p) \/ ClearDone(p)
 
